@@ -16,6 +16,9 @@ RULE = (
     "table: every code point x 5 grammars (exhaustive); positions: 14 label "
     "positions x {all of 0..0x2FF, range edges +-1, surrogates, U+FFFF, "
     "U+10000, U+10FFFF, random others} x 3 strict grammars x 2 loader routes; "
+    "any-offset: a disallowed character inserted at offsets spread over the "
+    "whole text before END of generated documents (every offset in the "
+    "thorough tier); "
     "default: all code points inside quoted strings (packed 256 per load; a table case = one 1024-code-point block of one grammar; "
     "quick tier: BMP sample + edges). distinct = distinct (workload, grammar, "
     "position, code point); non-trivial = code point is outside printable "
@@ -282,10 +285,88 @@ def table(rec, hb, pvl, part, nparts):
             rec.case(("table", dialect, b), True)
 
 
+def any_offset(rec, hb, pvl, tier, seed, part, nparts):
+    """A disallowed character at ANY offset before the END statement of a
+    generated well-formed document must give a LexerError located at it."""
+    from .. import gen_text as gt
+    LexerError = pvl.exceptions.LexerError
+    ndocs = 48 if tier == "quick" else 1500
+    bad_chars = {"PVL": "\x01\x7f\x85\u0394\U0001F600", "ODL": "\x80\xe9\u0394",
+                 "PDS3": "\x80\xe9\u0394"}
+    for j in range(part, ndocs, nparts):
+        rng = random.Random(f"C15-doc-{seed}-{j}")
+        dialect = ("PVL", "ODL", "PDS3")[j % 3]
+        while True:
+            doc = gt.gen_document(rng, dialect, max_top=4)
+            if not any(c == "seq-inside-set" for c, _ in doc.meta):
+                break
+        toks = list(doc.tokens)
+        if toks[-1].kind == gt.SEMI:
+            toks = toks[:-1]
+        if toks[-1].kind != gt.END:
+            toks.append(gt.Tok(gt.END, "END"))
+        text, offs = gt.render_with_offsets(toks, gt.gen_layout(rng, toks, dialect, "lines"))
+        end_at = offs[-1]
+        step = 1 if tier == "thorough" else max(1, end_at // 60)
+        for off in range(0, end_at + 1, step):
+            hb.beat()
+            ch = rng.choice(bad_chars[dialect])
+            t2 = text[:off] + ch + text[off:]
+            rec.case(("any-offset", dialect, j, off), True)
+            rec.count("any_offset_cases")
+            wit = {"dialect": dialect, "route": "strict-parser", "position":
+                   "any-offset", "codepoint": ord(ch), "text": t2, "offset": off}
+            try:
+                with common.cpu_limit(30):
+                    pvl.loads(t2, parser=strict_parser(pvl, dialect))
+                out = ("ok", None)
+            except LexerError as e:
+                out = ("LexerError", e)
+            except common.CaseTimeout:
+                rec.inconc("CPU budget exceeded (any-offset)")
+                continue
+            except Exception as e:
+                out = (type(e).__name__, e)
+            # which kind of token surrounds the offset (a pure input feature)
+            where = "between-tokens"
+            for tk, o in zip(toks, offs):
+                if o < off < o + len(tk.text):
+                    where = "inside-" + tk.kind
+                elif off == o:
+                    where = "before-" + tk.kind
+            if out[0] != "LexerError":
+                rec.violation("C15", dialect, "disallowed-char-not-rejected",
+                              {"position": "any-offset:" + where, "route": "strict-parser",
+                               "outcome": out[0]}, wit,
+                              f"U+{ord(ch):04X} at offset {off} ({where}): {out[0]}")
+            else:
+                e = out[1]
+                # the error must point at the character, or at the start of
+                # the lexeme / comment that holds it (never beyond it, never
+                # into an earlier token)
+                region = 0
+                for tk, o in zip(toks, offs):
+                    if o <= off:
+                        region = o     # start of the last token that begins before
+                ws_region = max(t2.rfind(c, 0, off) for c in " \t\n\r\f\v") + 1
+                region = min(region, ws_region)
+                pos = getattr(e, "pos", None)
+                ok = (isinstance(pos, int) and region <= pos <= off
+                      and e.lineno == t2.count("\n", 0, pos) + 1
+                      and e.colno == pos - t2.rfind("\n", 0, pos))
+                rec.count("error_attribute_checks")
+                if not ok:
+                    rec.violation("C15", dialect, "error-attributes-inconsistent",
+                                  {"which": "any-offset", "char_starts_lexeme": False},
+                                  wit, f"pos={getattr(e, 'pos', None)} lineno={e.lineno} "
+                                       f"colno={e.colno} for a character at {off}")
+
+
 def shard(i, n, tier, seed, rec, hb):
     pvl = common.import_pvl()
     rng = random.Random(f"C15-{seed}")
     table(rec, hb, pvl, i, n)
+    any_offset(rec, hb, pvl, tier, seed, i, n)
     cps = set(range(0, 0x300)) | set(EDGES)
     cps |= {rng.randrange(0x300, 0x110000) for _ in range(300 if tier == "quick" else 3000)}
     if tier == "thorough":
@@ -310,7 +391,7 @@ def finish_kwargs(rec, tier):
         },
         required_counters=("table_entries_checked", "disallowed_before_END",
                            "after_END", "allowed_ordinary",
-                           "error_attribute_checks",
+                           "error_attribute_checks", "any_offset_cases",
                            "default_codepoints_in_quotes"),
         assumptions=["specification predicate: PVL/ISIS = ISO 8859-1 minus "
                      "0-8, 14-31, 127-159; ODL/PDS3 = code points < 128"],
